@@ -517,6 +517,28 @@ def run(ctx):
                         "%s forwards decode to %s but never decode_eof: a body that is only complete at its end (`@unit`, `@a b`, a bare number once the parser is strictly incremental) is rejected with 'bytes remaining on stream'" % (ty, it.split("::")[-1]))
         r.check(n >= 2, "scope/wrappers", "-", "%d decoders delegate to a decoder with its own decode_eof" % n)
 
+    with ctx.rule("C09.R6", "T1", "the tokenizer never yields a float that the printers cannot write back", floor=2) as r:
+        # Recon has no text for an infinity or NaN: `inf` reads back as a text and `-inf` does not parse at all, so a literal that overflows
+        # (`1e400`) must be an error, not Float64Value(inf)
+        n = 0
+        for b in rc.all_bodies():
+            if "recon_parser::tokens::" not in b.defpath:
+                continue
+            ctor_refs = [d for d, w in refs(b) if d.endswith("NumericValue::Float")]
+            built = [(i, line) for i, j, p_, rv, line in b.assigns() if rv[0] == "agg" and describe_rvalue(b, rv).startswith("NumericValue::Float(")]
+            if not ctor_refs and not built:
+                continue
+            ctx.saw(b)
+            n += 1
+            fn = "::".join(b.defpath.split("tokens::")[-1].split("::")[:2])
+            r.check(not ctor_refs, "%s/float-constructed-under-a-test" % fn, where(b), "NumericValue::Float is not used as a bare constructor function",
+                    "%s maps the parsed double straight into NumericValue::Float: `1e400` becomes Float64Value(inf), which prints as `inf` (read back as a text) and `-1e400` as `-inf` (does not parse)" % fn)
+            for i, line in built:
+                g = dom_guards(b, i)
+                fin = any(d.startswith("is_finite(") and l == "true" for d, l, _ in g) or (any(d.startswith("is_nan(") and l == "false" for d, l, _ in g) and any(d.startswith("is_infinite(") and l == "false" for d, l, _ in g))
+                r.check(fin, "%s/only-finite-floats" % fn, b.loc(line), "the float is built only when is_finite() holds", "a float is built without testing that it is finite (guards: %s)" % [(d[:30], l) for d, l, _ in g])
+        r.check(n >= 2, "scope/float-sites", "-", "%d tokenizer functions build floats (streaming and complete forms)" % n)
+
     with ctx.rule("C09.R5", "T9", "panic audit: parser, decoder, literal and recognizer modules", floor=15) as r:
         ALLOW = {
             ("unescape", "unwrap", "to_digit"): "to_digit(16) after is_ascii_hexdigit(c)",
